@@ -596,10 +596,21 @@ func (b Browse) ServeArchive(w http.ResponseWriter, r *http.Request, dirPath str
 		close(writeComplete)
 	}()
 
+	// abort ends an archive that cannot be completed. The 200 header is
+	// already out, so there is no second status to send; what matters is
+	// that the copy goroutine has stopped before this handler returns -
+	// a write to w after that races with net/http finishing the response
+	// and panics in a goroutine nobody recovers, which kills the process.
+	abort := func(err error) (int, error) {
+		bufW.CloseWithError(err)
+		<-writeComplete
+		return 0, err
+	}
+
 	writer := archiveType.GetWriter()
 	err := writer.Create(bufW)
 	if err != nil {
-		return http.StatusInternalServerError, err
+		return abort(err)
 	}
 
 	err = fs.Walk(bc.Fs.Root, dirPath, func(path string, info os.FileInfo, err error) error {
@@ -654,7 +665,7 @@ func (b Browse) ServeArchive(w http.ResponseWriter, r *http.Request, dirPath str
 	})
 
 	if err != nil {
-		return http.StatusInternalServerError, err
+		return abort(err)
 	}
 
 	writer.Close()
